@@ -287,6 +287,7 @@ def run(chk):
     seen = set()
     nbad = 0
     sret_done = False
+    tie_only = []
     for c, bad, m in res:
         if m.get('frame'):
             o = m['frame']['obs']
@@ -309,6 +310,11 @@ def run(chk):
                            'MIR function %s entered via %s: %s' % (G.proto_sig(c_['proto']), c_['engine'], b_[0])):
                 nbad += 1
         if not bad:
+            continue
+        if all(b.startswith('tie:') for b in bad):
+            # the function behaved correctly as far as the trampoline can see; only the VaList/Frame
+            # model no longer describes what the generator emitted
+            tie_only.append((c, bad, m))
             continue
         sig = signature(c)
         if sig in seen:
@@ -339,6 +345,17 @@ def run(chk):
                 if nbad <= 14:
                     chk.finding(signature(c), replay_obj(c, bad, m), 'assert-enabled build: MIR function %s entered via %s (%s body): %s' % (
                         G.proto_sig(c['proto']), c['engine'], c['body']['kind'], '; '.join(bad[:3])))
+    if tie_only and not nbad:
+        # broken correspondence without a failing input: every dynamic observation (parameters, results,
+        # callee-saved registers, rsp, alignment, control state) was right on every case of this run
+        c, bad, m = tie_only[0]
+        chk.finding('tie-broken:frame-or-va_list', dict(replay_obj(c, bad, m), theorems=['frame_saves_cover', 'frame_sp_aligned',
+                    'frame_slots_sound', 'va_arg_sequence_eq_sysv'], cases_with_model_mismatch=len(tie_only),
+                    searched='%d native->MIR calls: parameters, results, callee-saved registers, rsp, MXCSR/x87, alloca, '
+                             'nested-call alignment all as the ABI requires' % len(cases)),
+                    'the Frame/VaList model no longer matches what the generator emits (e.g. %s via %s: %s); no ABI-level '
+                    'failure found' % (G.proto_sig(c['proto']), c['engine'], '; '.join(bad[:2])), no_input=True)
+        nbad += 1
     for c2, bad2, m2 in gcc_callers(chk, model, quick):
         sig = 'c06:gcc-caller:' + signature(c2)
         if sig in seen:
